@@ -11,9 +11,9 @@ use vcore::md5::dist_digest;
 use vcore::proto::{HsMsg, deframe, frame, hs_ack, hs_challenge, hs_status, read_hs_from_initiator};
 use vcore::report::Report;
 
-const STATUS: [&str; 13] = ["ok", "ok_simultaneous", "nok", "not_allowed", "alive", "garbage", "empty_frame", "wrong_tag", "short_frame_then_silence", "close", "silence", "ok_after_empty_frame", "ok_after_junk_frame"];
-const CHALLENGE: [&str; 12] = ["valid", "valid_other_flags", "truncated_10", "truncated_18", "wrong_tag", "name_len_beyond_body", "long_prefix_then_silence", "close", "silence", "ack_instead", "valid_after_empty_frame", "valid_after_status_again"];
-const ACK: [&str; 12] = ["valid", "wrong_digest", "reflected_digest", "truncated", "oversized", "wrong_tag", "close", "silence", "challenge_again", "empty_frame", "valid_after_empty_frame", "valid_after_wrong_digest"];
+const STATUS: [&str; 16] = ["ok", "ok_simultaneous", "nok", "not_allowed", "alive", "garbage", "empty_frame", "wrong_tag", "short_frame_then_silence", "close", "silence", "ok_after_empty_frame", "ok_after_junk_frame", "padded_300", "padded_600", "padded_65535"];
+const CHALLENGE: [&str; 15] = ["valid", "valid_other_flags", "truncated_10", "truncated_18", "wrong_tag", "name_len_beyond_body", "long_prefix_then_silence", "close", "silence", "ack_instead", "valid_after_empty_frame", "valid_after_status_again", "padded_300", "padded_600", "padded_65535"];
+const ACK: [&str; 15] = ["valid", "wrong_digest", "reflected_digest", "truncated", "oversized", "wrong_tag", "close", "silence", "challenge_again", "empty_frame", "valid_after_empty_frame", "valid_after_wrong_digest", "padded_300", "padded_600", "padded_65535"];
 const TIMEOUT: Duration = Duration::from_secs(3);
 const PEER_FLAGS_A: u64 = 0xffff_ffff_ffff_ffff;
 const PEER_FLAGS_B: u64 = 0x0000_000d_07df_7fbd;
@@ -69,6 +69,7 @@ fn execute_with(case: &(usize, usize, usize), cookie: &str, peer_cookie: &str, c
                 "ok_after_empty_frame" => { peer.send(&[0, 0]); peer.send(&frame(&hs_status("ok"), 2)); deviated = true; }
                 "ok_after_junk_frame" => { peer.send(&frame(b"?", 2)); peer.send(&frame(&hs_status("ok"), 2)); deviated = true; }
                 "garbage" => { peer.send(&frame(&hs_status("okay"), 2)); conforming = false; }
+                p if p.starts_with("padded_") => { let n: usize = p[7..].parse().unwrap(); let mut m = hs_status("ok"); m.resize(n, 0); peer.send(&frame(&m, 2)); conforming = false; }
                 "empty_frame" => { peer.send(&[0, 0]); conforming = false; }
                 "wrong_tag" => { peer.send(&frame(b"xok", 2)); conforming = false; }
                 "short_frame_then_silence" => { peer.send(&[0, 5, b's', b'o']); conforming = false; silent = true; }
@@ -85,6 +86,7 @@ fn execute_with(case: &(usize, usize, usize), cookie: &str, peer_cookie: &str, c
                 "valid_after_empty_frame" => { peer.send(&[0, 0]); peer.send(&frame(&good(PEER_FLAGS_A), 2)); deviated = true; }
                 "valid_after_status_again" => { peer.send(&frame(&hs_status("ok"), 2)); peer.send(&frame(&good(PEER_FLAGS_A), 2)); deviated = true; }
                 "truncated_10" => { peer.send(&frame(&good(PEER_FLAGS_A)[..10], 2)); conforming = false; }
+                p if p.starts_with("padded_") => { let n: usize = p[7..].parse().unwrap(); let mut m = good(PEER_FLAGS_A); m.resize(n, 0); peer.send(&frame(&m, 2)); conforming = false; }
                 "truncated_18" => { peer.send(&frame(&good(PEER_FLAGS_A)[..18], 2)); conforming = false; }
                 "wrong_tag" => { let mut g = good(PEER_FLAGS_A); g[0] = b'n'; peer.send(&frame(&g, 2)); conforming = false; }
                 "name_len_beyond_body" => { let mut g = good(PEER_FLAGS_A); g[17] = 0x7f; peer.send(&frame(&g, 2)); conforming = false; }
@@ -112,6 +114,7 @@ fn execute_with(case: &(usize, usize, usize), cookie: &str, peer_cookie: &str, c
                 "valid_after_empty_frame" => { peer.send(&[0, 0]); peer.send(&frame(&hs_ack(&dist_digest(COOKIE, their)), 2)); deviated = true; }
                 "valid_after_wrong_digest" => { peer.send(&frame(&hs_ack(&dist_digest("other", their)), 2)); peer.send(&frame(&hs_ack(&dist_digest(COOKIE, their)), 2)); deviated = true; }
                 "wrong_digest" => { peer.send(&frame(&hs_ack(&dist_digest("other", their)), 2)); conforming = false; }
+                p if p.starts_with("padded_") => { let n: usize = p[7..].parse().unwrap(); let mut m = hs_ack(&dist_digest(COOKIE, their)); m.resize(n, 0); peer.send(&frame(&m, 2)); conforming = false; }
                 "reflected_digest" => { peer.send(&frame(&hs_ack(&dist_digest(COOKIE, challenge)), 2)); conforming = false; }
                 "truncated" => { peer.send(&frame(&hs_ack(&dist_digest(COOKIE, their))[..9], 2)); conforming = false; }
                 "oversized" => { let mut a = hs_ack(&dist_digest(COOKIE, their)); a.extend_from_slice(&[0; 4]); peer.send(&frame(&a, 2)); conforming = false; }
@@ -173,6 +176,22 @@ fn execute_with(case: &(usize, usize, usize), cookie: &str, peer_cookie: &str, c
             if h2.is_finished() {
                 let (c2, r2) = (&mut h2).await.unwrap();
                 if hs.is_err() || r2.is_err() || c2.state() != ConnectionState::Connected { res.violations.push(("connection cannot be reused after a failed handshake and close()".into(), detail(format!("peer side: {:?}, connect: {:?}", hs.err(), r2.err().map(|e| e.to_string()))))); }
+                else {
+                    // and once more after the read half has been handed out (as a Node does with every connection) and the
+                    // connection closed: the third handshake succeeds as well
+                    let mut c3 = c2;
+                    let _rh = c3.take_read_half();
+                    let _ = c3.close().await;
+                    let mut h3 = tokio::spawn(async move { let r = c3.connect().await; (c3, r) });
+                    if let Some(mut p3) = w.accept_peer().await {
+                        let hs3 = w.peer_handshake(&mut p3, PEER_FLAGS_A).await;
+                        for _ in 0..4000 { w.yield_once().await; if h3.is_finished() { break; } }
+                        if h3.is_finished() {
+                            let (c3, r3) = (&mut h3).await.unwrap();
+                            if hs3.is_err() || r3.is_err() || c3.state() != ConnectionState::Connected { res.violations.push(("connection cannot be reused after its read half was handed out and it was closed".into(), detail(format!("peer side: {:?}, connect: {:?}", hs3.err(), r3.err().map(|e| e.to_string()))))); }
+                        } else { res.violations.push(("third connect did not finish".into(), detail("reuse after take_read_half".into()))); h3.abort(); }
+                    } else { h3.abort(); res.violations.push(("third connect never reached the peer".into(), detail("reuse after take_read_half".into()))); }
+                }
             } else { res.violations.push(("second connect did not finish".into(), detail("reuse".into()))); h2.abort(); }
         } else { h2.abort(); res.violations.push(("second connect never reached the peer".into(), detail("reuse".into()))); }
         res.steps = 3;
